@@ -17,6 +17,7 @@ AxisClass(r, dims, k) ==
                 here == PosIn(ax, dims) IN
             IF Cardinality({d \in SeqToSet(dims) : d \in AxisDims(ax)}) = 0 THEN "data-without-a-dimension-of-the-axis"
             ELSE IF Cardinality({d \in SeqToSet(dims) : d \in AxisDims(ax)}) > 1 THEN "data-with-two-dimensions-of-the-axis"
+            ELSE IF r.op \in {"integrate", "average"} THEN AxisClass(r, dims, k + 1)       \* no shift is involved
             ELSE LET from == ThePos(ax, dims)
                      to == ToOf(r.grid.ctor, r.args.to, ax, from) IN
                  IF to \notin PosWords \cup {"none"} THEN "unknown-position-word"
@@ -26,7 +27,8 @@ AxisClass(r, dims, k) ==
                  ELSE AxisClass(r, ReplaceDim(dims, DimOfPos(ax, from), DimOfPos(ax, to)), k + 1)
 
 IllClass(r) ==
-  IF WordsOf(r.args.boundary) \ KnownRules # {} THEN "unknown-boundary-word"
+  IF r.op \in {"integrate", "average"} THEN AxisClass(r, r.args.data.dims, 1)
+  ELSE IF WordsOf(r.args.boundary) \ KnownRules # {} THEN "unknown-boundary-word"
   ELSE IF r.args.fill_bad THEN "non-numeric-fill-value"
   ELSE AxisClass(r, r.args.data.dims, 1)
 
